@@ -31,6 +31,10 @@ Round 9: taskrules.require is called through `require` here (owner read through 
 of the ancestors handed to the two-argument dependency helper is C01's question); a root memo in _find_root must be reset for the
 whole moved subtree; all_children filling an accumulator handed down the recursion; builtin setattr(task, key, v) guarded by the
 public-name test; dependency-list helpers of the list base classes are not hierarchy state.
+Round 10: `require` adds the facts about owners (exactly one None => they differ) and leaves a requirement undecided when the
+setter rejects inside a while loop; _find_root / _collect_subtree may be Task methods (c05_util.id_helpers); a flag loop
+(`if ..: clash = True`) is the search loop; the generator behind _collect_subtree is a collector name; WBS[id] through an id -> member
+dict needs TypeError translated as well as KeyError.
 Not decided: a memoised all_children whose invalidation looks complete (UNDECIDED); id tests written with running `picked`
 sets or other idioms the evaluator does not model (UNDECIDED).
 """
@@ -373,7 +377,8 @@ def require(ctx, o, f, label, R, writes, eff, needs_elem, mode_filter=None):
         return fm
     try:
         gfs = T.guard_formulas(ctx, f)
-        if any('.wbs)' in a or a.startswith('call:_has_dependency_with_parents(') for g in gfs for a in T.atoms_of(g.formula)):
+        if any('.wbs)' in a or a.startswith('call:_has_dependency_with_parents(') or a.startswith('wbsneq(')
+               for g in gfs for a in T.atoms_of(g.formula)):
             usable = []
             for g in gfs:
                 late = T.writes_not_preceded(cfg, f, T._as_gf(g), writes)
@@ -382,11 +387,27 @@ def require(ctx, o, f, label, R, writes, eff, needs_elem, mode_filter=None):
                 fm = ren(g.formula)
                 if not late and g.exc == 'RuntimeError' and (g.per_element or not needs_elem or 'elem' not in T.fmt(fm)):
                     usable.append(fm)
-            if T.implication(R, usable) is None:
-                o.site(f, f.node, f"{label}: {T.fmt(R)} => RuntimeError before the first write (owner read through Task.wbs)")
+            # facts about owners: exactly one of two owners None => they differ; both None => they do not
+            ax = []
+            for a in sorted({x for fm in usable for x in T.atoms_of(fm)} | T.atoms_of(R)):
+                m = _re.match(r"^wbsneq\(([^,()]*),([^,()]*)\)$", a)
+                if m:
+                    na, nb, ne = T.F_atom(f"wbsnone({m.group(1)})"), T.F_atom(f"wbsnone({m.group(2)})"), T.F_atom(a)
+                    ax.append(T.F_or(T.F_not(T.F_and(na, T.F_not(nb))), ne))
+                    ax.append(T.F_or(T.F_not(T.F_and(nb, T.F_not(na))), ne))
+                    ax.append(T.F_or(T.F_not(T.F_and(na, nb)), T.F_not(ne)))
+            if T.implication(T.F_and(R, *ax) if ax else R, usable) is None:
+                o.site(f, f.node, f"{label}: {T.fmt(R)} => RuntimeError before the first write")
                 return True
     except Exception:
         pass
+    loops = [w for w in walk_no_nested(f.node) if isinstance(w, ast.While) and any(isinstance(x, ast.Raise) for x in ast.walk(w))]
+    if loops:
+        # a guard that walks a chain (`while p is not None: if p is self: raise ..; p = p.__parent`) is not a formula over the
+        # canonical atoms: what it rejects cannot be compared with the requirement here
+        o.undecided(f, loops[0], label, f"[{label}] cannot be established: {f.name} rejects inside a while loop (`{src(loops[0].test)[:40]}`), a "
+                                        f"guard form the rule does not interpret")
+        return False
     return T.require(ctx, o, f, label, R, writes, eff, needs_elem, mode_filter=mode_filter)
 
 
@@ -427,7 +448,8 @@ def scope(ctx, o):
       top      `<cursor>` under `<cursor>.parent is None`    top of the tree; through the PUBLIC parent only under `wbs is None`
     where a cursor is the parameter or a local that only ever holds the parameter / the parent of a cursor"""
     prog = ctx.prog
-    f = prog.func('task._find_root')
+    from .c05_util import id_helpers
+    f = id_helpers(prog)[0] or prog.func('task._find_root')
     p = f.params[0]
     fl = flow_of(f)
     cfg = fl.cfg
@@ -492,7 +514,9 @@ def scope(ctx, o):
             else:
                 o.undecided(f, r, r, f"`{src(v)[:60]}`: a root task of something the rule cannot relate to the given task")
             continue
-        m = match("_find_root($x)", v)
+        m = match(f"{f.name}($x)", v) if f.cls is None else None
+        if m is None and isinstance(v, ast.Call) and isinstance(v.func, ast.Attribute) and not v.args and unmangle(v.func.attr) == f.name:
+            m = {'x': v.func.value}                # method form: <cursor>.parent._tree_root()
         if m is not None:
             x = m['x']
             if cursor_expr(x) and not isinstance(x, ast.Name):
@@ -617,7 +641,8 @@ def _if_of(f, node):
 
 def intersection(ctx, o):
     from .c05_util import check_intersection, check_collect_subtree
-    check_collect_subtree(ctx, o, ctx.prog.func('task._collect_subtree'))
+    from .c05_util import id_helpers
+    check_collect_subtree(ctx, o, id_helpers(ctx.prog)[1] or ctx.prog.func('task._collect_subtree'))
     check_intersection(ctx, o, ctx.prog.func('task._has_id_intersection'))
 
 
@@ -720,6 +745,45 @@ def _loop_lookup(ctx, o, f, p) -> bool:
     return False
 
 
+def _dict_lookup(ctx, o, f, p) -> bool:
+    """`try: return <{t.id: t for t in members}>[key]  except KeyError: raise RuntimeError`.  Subscripting hashes the key: a key that is
+    not hashable raises TypeError, which must end in RuntimeError too (no member has that id)"""
+    prog = ctx.prog
+    ex = Expander(prog, f, ctx.typer, inline=True)
+    for t in [n for n in walk_no_nested(f.node) if isinstance(n, ast.Try)]:
+        rets = [r for b in t.body for r in ast.walk(b) if isinstance(r, ast.Return) and isinstance(r.value, ast.Subscript)]
+        if len(rets) != 1:
+            continue
+        sub = rets[0].value
+        if not (isinstance(sub.slice, ast.Name) and sub.slice.id == p):
+            continue
+        d = ex.expand(sub.value, cfg_of(f).node_of(rets[0]))
+        if not (isinstance(d, ast.DictComp) and len(d.generators) == 1 and isinstance(d.generators[0].target, ast.Name)):
+            o.undecided(f, rets[0], rets[0], f"lookup subscripts `{src(sub.value)[:40]}`: cannot tell that it maps every member's id to the member")
+            return True
+        g = d.generators[0]
+        tv = g.target.id
+        it_ok = match("self._WBS__root.all_children", g.iter) or match("self.tasks", g.iter)
+        if not (match(f"{tv}.id", d.key) and isinstance(d.value, ast.Name) and d.value.id == tv and it_ok and not g.ifs):
+            o.refute(f, rets[0], d, f"lookup goes through `{src(d)[:60]}`, which is not the map id -> member over all members")
+            return True
+        caught = set()
+        for h in t.handlers:
+            names = [src(x) for x in (h.type.elts if isinstance(h.type, ast.Tuple) else [h.type])] if h.type is not None else ['Exception']
+            if any(isinstance(x, ast.Raise) and facts.exc_name(x) == 'RuntimeError' for x in h.body):
+                caught |= set(names)
+        if 'KeyError' not in caught and not caught & {'Exception', 'LookupError'}:
+            o.refute(f, t, 'missing id', "a missing id does not end in RuntimeError (KeyError of the dict lookup is not translated)")
+        elif not caught & {'TypeError', 'Exception'}:
+            o.refute(f, rets[0], rets[0], f"lookup subscripts a dict with the key (`{src(sub)[:40]}`): a key that is not hashable raises TypeError, "
+                                          f"which is not translated - wbs[key] must raise RuntimeError whenever no member has that id")
+        else:
+            o.site(f, rets[0], "member with t.id == id through an id -> member map built per call")
+            o.site(f, t, "missing / unhashable id -> RuntimeError")
+        return True
+    return False
+
+
 def lookup(ctx, o):
     prog = ctx.prog
     f = prog.func('wbs.WBS.__getitem__')
@@ -752,7 +816,9 @@ def lookup(ctx, o):
                     o.undecided(f, n, it, f"lookup searches `{src(it)[:50]}`: cannot tell that these are all members of the WBS")
                     found = True
     from . import c05_util
-    if not found and _loop_lookup(ctx, o, f, p):
+    if not found and _dict_lookup(ctx, o, f, p):
+        pass
+    elif not found and _loop_lookup(ctx, o, f, p):
         pass
     elif not found and c05_util.dfs_lookup(ctx, o, f, p):
         pass
